@@ -35,6 +35,12 @@ def build_shape_file(shape, seed=0, variant=0, xtype=None, ytype=None, with_y=No
         ytype = cands[(h // 31) % len(cands)]
     if with_y is None:
         with_y = (h // 7) % 4 != 0          # three in four files have a second channel
+    # long shapes (TdmsData.LongShape): the second channel comes first in every segment and keeps the first segment's
+    # number of values throughout, so the per-segment tables of the two channels agree on a long prefix and differ
+    # only in the tail (the implementation shares equal tables between channels, comparing them in blocks of 100)
+    long_ = len(segs) > 50 and not il
+    if long_:
+        with_y = True
     be = (h // 3) % 2 == 1
     out = []
     nseg = len(segs)
@@ -42,14 +48,14 @@ def build_shape_file(shape, seed=0, variant=0, xtype=None, ytype=None, with_y=No
         hj = _h(h, j)
         last_seg = j == nseg - 1
         is_trunc = last_seg and trunc
-        yfirst = (hj % 2 == 0)
+        yfirst = True if long_ else (hj % 2 == 0)
         if s["pres"]:
             n, k = s["n"], s["k"]
             xo = {"p": X, "has": True, "n": n, "ty": xtype}
             objs = [xo]
             listed = [{"p": X, "kind": "full"}]
             if with_y:
-                ny = n if il else 1 + (hj // 5) % 2
+                ny = n if il else (segs[0]["n"] if long_ else 1 + (hj // 5) % 2)
                 yo = {"p": Y, "has": True, "n": ny, "ty": ytype}
                 if yfirst:
                     objs = [yo, xo]
@@ -171,6 +177,13 @@ def replay_data_case(case):
                 continue        # the channel never appears in the file: nothing to ask
             fails.append(({"kind": "channel-missing", "mode": mode}, {"shape": rec["shape"], "hex": e.data.hex()}))
             continue
+        if mode == "lazy" and len(rec["shape"]["segs"]) > 50 and info["with_y"]:
+            # long shapes: the other channel's table is built first, so that sharing it with x is possible at all
+            # (the statement quantifies over files and requests; what was read before must not matter, C05)
+            try:
+                f["grp"]["y"][0]
+            except Exception:  # noqa
+                pass
         if len(ch) != rec["len"]:
             fails.append(({"kind": "length", "mode": mode, "trunc": info["trunc"]},
                           {"shape": rec["shape"], "info": info, "expected": rec["len"], "observed": len(ch),
